@@ -11,11 +11,14 @@ import concurrent.futures as cf
 import json, os, random, re, subprocess, threading
 import vlib
 
-# encodings of the "private" key in the info dict.  BEP 27: "private=1".  Intended reading fixed by the specification
-# for absent / integer 0 / integer 1; every other encoding is ambiguous: the check then takes the CLIENT's own reading
-# (Stats().Private, or the refusal of the metadata) and demands behaviour consistent with it.
-ENCS = ["absent", "i1", "i0", "i2", "im1", "s1", "s0", "se", "sx", "list", "elist", "dict", "ibig"]
-INTENDED = {"absent": False, "i0": False, "i1": True}
+# encodings of the "private" key in the info dict and their value class as named in Private.tla.  The reading is fixed by the
+# specification (Private!IsPrivateEncoding, fail-safe): private iff present and not integer 0 / string "0" / empty string.
+# EVERY encoding is judged against that reading (C19.flag and all other obligations); where the client's own reading
+# (Stats().Private, or the refusal of magnet metadata) differs is recorded in the evidence as well.
+ENCV = {"absent": "absent", "i1": "int:1", "i0": "int:0", "i2": "int:2", "im1": "int:-1", "s1": "str:1", "s0": "str:0", "se": "str:",
+        "sx": "str:x", "list": "list", "elist": "list", "dict": "dict", "edict": "dict", "ibig": "int:big"}
+ENCS = list(ENCV)
+PUBLIC_VALUES = {"absent", "int:0", "str:0", "str:"}        # mirror of Private!PublicValues (used for the control counters only)
 KIND = {"out": "tracker", "man": "manual", "in1": "incoming", "in2": "incoming", "pexa": "pex", "pexd": "pex", "dhtp": "dht"}
 DHT_SETTLE = 1700
 INFLIGHT_MS = 300       # connections / ut_pex messages logged less than this after the refusal of the metadata count as in flight before it
@@ -154,15 +157,10 @@ def project(raw_path, info):
         else:
             reading = bool(fin[-1]["private"])
         fact["reading"] = reading
-        enc = ini["enc"]
-        if enc in INTENDED:
-            priv, amb = INTENDED[enc], False
-        elif reading is None:
-            continue
-        else:
-            priv, amb = reading, True
-        fact["priv"], fact["amb"] = priv, amb
-        a = [{"ev": "init", "sid": sid, "priv": priv, "amb": amb, "dht": bool(ini["dht"]), "pex": bool(ini["pex"]),
+        encv = ENCV[ini["enc"]]
+        priv = encv not in PUBLIC_VALUES
+        fact["priv"], fact["encv"] = priv, encv
+        a = [{"ev": "init", "sid": sid, "encv": encv, "priv": priv, "dht": bool(ini["dht"]), "pex": bool(ini["pex"]),
               "sibling": bool(ini["sibling"]), "mode": ini["mode"]}]
         seen_ident = set()
         na, tprev = 0, evs[0]["t_ms"]
@@ -245,13 +243,14 @@ def run(ctx):
     ctx.level = "model_checking"
     ctx.cov["rule"] = ("scenario = encoding of the private key x (file | magnet) x PEX switch x DHT switch x sibling magnet x message history "
                        "(TLC-generated: AddPeer, incoming peers, PEX added/dropped from each connected peer, port messages, Magnet(), re-announce, "
-                       "stop/start, AddTracker); every scripted peer advertises ut_pex; non-trivial = the torrent is private (by the intended or the "
-                       "client's own reading) or its metadata is refused; distinct = distinct (encoding, mode, switches, history) tuples")
+                       "stop/start, AddTracker); every scripted peer advertises ut_pex; non-trivial = the torrent is private by the fail-safe "
+                       "reading of its encoding; distinct = distinct (encoding, mode, switches, history) tuples")
     ctx.assumptions += ["address sources are told apart by the listener a connection arrives at: the tracker's, the user's, the PEX added / dropped and the "
                         "DHT stub's address each have their own 127.0.0.x listener",
                         "negative observations use a settle window (300 ms after the last step; DHT: until a query with the info-hash was seen, else 1.7 s, "
                         "plus 0.4 s); the same windows show the positive behaviour on public torrents (controls counted in evidence)",
-                        "encodings other than absent / integer 0 / integer 1 are judged against the client's own reading of the flag (consistency)",
+                        "reading of the private key (Private!IsPrivateEncoding): private iff present and not integer 0 / string \"0\" / empty string; every "
+                        "encoding (integers, strings, lists, dictionaries, oversized integer) is judged against it",
                         "a magnet link added for an info-hash the session also holds as private torrent asks the DHT on its own behalf (its metadata is "
                         "unknown); only the private torrent's behaviour is judged in that scenario"]
     # 1. design level (in worker threads, concurrently with the scenarios)
@@ -317,7 +316,9 @@ def scenarios_level(ctx):
         table.setdefault(f["enc"], {}).setdefault(f["mode"] + ":" + r, 0)
         table[f["enc"]][f["mode"] + ":" + r] += 1
     ctx.extra["client_reading_of_encodings"] = table
-    ctx.extra["ambiguous_encodings"] = sorted(e for e in table if e not in INTENDED)
+    ctx.extra["client_reading_differs_from_failsafe_reading"] = sorted({"%s(%s) %s: client=%s spec=%s" % (f["enc"], f["encv"], f["mode"],
+                                                                          "private" if f["reading"] else "public", "private" if f["priv"] else "public")
+                                                                         for f in info.values() if f.get("reading") is not None and "priv" in f and f["reading"] != f["priv"]})
     ctx.extra["port_messages_sent_to_peers_of_private_torrents"] = sum(f["portrx"] for f in info.values() if f.get("priv"))
     ctx.extra["extension_handshakes_advertising_ut_pex_on_private_torrents"] = sum(f["advpex"] for f in info.values() if f.get("priv"))
     ctx.extra["connections_without_handshake_not_judged"] = sum(f.get("unattributed", 0) for f in info.values())
@@ -398,7 +399,7 @@ def scenarios_level(ctx):
             bads = [s for s in ev["srcs"] if s not in ("tracker", "manual", "incoming")] or [""]
         for bad in bads:
             sig = "tag=%s mode=%s reading=%s pex=%d dht=%d sibling=%d ev=%s src=%s q=%s what=%s cls=%s pexfrom=%s dhtvalues=%d after=%s bad=%s" % (
-                tag, ini["mode"], "ambiguous" if ini["amb"] else "intended", ini["pex"], ini["dht"], ini["sibling"], ev["ev"], ev.get("src", "-"),
+                tag, ini["mode"], ini["encv"], ini["pex"], ini["dht"], ini["sibling"], ev["ev"], ev.get("src", "-"),
                 ev.get("q", "-"), ev.get("what", "-"), ev.get("cls", "-"), "+".join(pexfrom) or "-",
                 any(e["ev"] == "dhtvalues" for e in before), "refused" if refused else "-", bad or "-")
             if (sig, tag) in seen:
